@@ -11,6 +11,9 @@ import io
 import os
 
 REAL_OPEN = io.open
+REAL_OS_OPEN = os.open
+REAL_OS_REPLACE = os.replace
+REAL_OS_RENAME = os.rename
 
 
 class SimCrash(BaseException):
@@ -137,6 +140,7 @@ class Disk:
         self.fault = None
         self.crashed = False
         self.ticks = cfg.get("clock_ticks", 0)
+        self.fds = {}      # descriptors handed out by os_open() on the simulated disk
         self.op_write_bytes = 0
         self.op_read_bytes = 0
         self.events = []
@@ -175,10 +179,60 @@ class Disk:
     def install(self):
         builtins.open = self.open
         io.open = self.open
+        # the descriptor-level idiom (os.open + os.fdopen) and the rename step of an atomic
+        # write belong to the same seam
+        os.open = self.os_open
+        os.replace = self.os_replace
+        os.rename = self.os_rename
 
     def uninstall(self):
         builtins.open = REAL_OPEN
         io.open = REAL_OPEN
+        os.open = REAL_OS_OPEN
+        os.replace = REAL_OS_REPLACE
+        os.rename = REAL_OS_RENAME
+
+    def os_open(self, path, flags, mode=0o777, *, dir_fd=None):
+        if dir_fd is not None:
+            return REAL_OS_OPEN(path, flags, mode, dir_fd=dir_fd)
+        relpath = self.rel(path)
+        if relpath is None:
+            return REAL_OS_OPEN(path, flags, mode)
+        writing = bool(flags & (os.O_WRONLY | os.O_RDWR))
+        self.stats["os_opens"] = self.stats.get("os_opens", 0) + 1
+        self.events.append({"path": relpath, "mode": "os.open:%s" % ("w" if writing else "r"),
+                            "encoding": None})
+        fault = self.fault
+        if fault is not None and fault["kind"] == "open_err" and \
+                (fault.get("on", "any") in ("any", "write" if writing else "read")):
+            self.fired(fault)
+            raise OSError(getattr(errno, fault.get("errno", "EACCES")), "simulated open error",
+                          os.fspath(path))
+        if self.crashed and writing:
+            fd = REAL_OS_OPEN(os.devnull, os.O_RDWR)
+            self.fds[fd] = (relpath, None)
+            return fd
+        fd = REAL_OS_OPEN(path, flags, mode)
+        self.fds[fd] = (relpath, os.path.join(self.root, relpath))
+        return fd
+
+    def _rename(self, real, src, dst, kwargs):
+        fault = self.fault
+        if self.rel(src) is not None or self.rel(dst) is not None:
+            if self.crashed:
+                return None       # the process is gone
+            if fault is not None and fault["kind"] == "tear" and fault.get("at_rename"):
+                # killed after the temporary file was written, before it was moved into place
+                self.crashed = True
+                self.fired(fault)
+                raise SimCrash("simulated kill before rename")
+        return real(src, dst, **kwargs)
+
+    def os_replace(self, src, dst, **kwargs):
+        return self._rename(REAL_OS_REPLACE, src, dst, kwargs)
+
+    def os_rename(self, src, dst, **kwargs):
+        return self._rename(REAL_OS_RENAME, src, dst, kwargs)
 
     def begin_op(self, fault):
         self.fault = fault
@@ -211,7 +265,16 @@ class Disk:
     def open(self, file, mode="r", buffering=-1, encoding=None, errors=None, newline=None,
              closefd=True, opener=None):
         if isinstance(file, int):
-            return REAL_OPEN(file, mode, buffering, encoding, errors, newline, closefd, opener)
+            if file not in self.fds or not closefd:
+                return REAL_OPEN(file, mode, buffering, encoding, errors, newline, closefd,
+                                 opener)
+            # a descriptor obtained from os.open() on the simulated disk: same stack, same faults
+            relpath, full = self.fds.pop(file)
+            readable = "r" in mode or "+" in mode
+            writable = any(c in mode for c in "wax+")
+            raw = SimRaw(self, file, relpath, readable, writable, full)
+            return self._wrap(raw, mode, buffering, encoding, errors, newline,
+                              {"path": relpath, "mode": mode, "encoding": encoding})
         relpath = self.rel(file)
         if relpath is None:
             self.stats["opens_passthrough"] += 1
@@ -243,11 +306,16 @@ class Disk:
         full = os.path.join(self.root, relpath)
         if self.crashed and writable:
             # the process is dead; pretend success, touch nothing
-            fd = os.open(os.devnull, os.O_RDWR)
+            fd = REAL_OS_OPEN(os.devnull, os.O_RDWR)
         else:
-            fd = os.open(full, flags, 0o644)
+            fd = REAL_OS_OPEN(full, flags, 0o644)
         raw = SimRaw(self, fd, os.fspath(file), readable, writable,
                      None if (self.crashed and writable) else full)
+        return self._wrap(raw, mode, buffering, encoding, errors, newline, event)
+
+    def _wrap(self, raw, mode, buffering, encoding, errors, newline, event):
+        binary = "b" in mode
+        readable, writable = raw.readable(), raw.writable()
         if buffering == 0:
             if not binary:
                 raise ValueError("can't have unbuffered text I/O")
